@@ -54,7 +54,7 @@ type H struct {
 
 type Op struct {
 	K      string `json:"k"`              // node | pass | edge | branch | compile
-	Kind   int    `json:"kind,omitempty"` // node: 0 Invoke 1 Stream 2 Collect 3 Transform lambda, 4 a sub graph START -> lambda -> END; branch: 0 multi branch, 1 stream multi branch
+	Kind   int    `json:"kind,omitempty"` // node: 0 Invoke 1 Stream 2 Collect 3 Transform lambda, 4 a sub graph START -> lambda -> END, 5 / 6 / 7 a lambda any -> any added WithInputKey("k") / WithOutputKey("k") / both (In / Out hold the DECLARED types: map[string]any on a keyed side); branch: 0 multi branch, 1 stream multi branch
 	ID     int    `json:"id"`             // position in the reference order (nodes first)
 	Key    int    `json:"key,omitempty"`  // node key (>= 2); 0 = START, 1 = END
 	In     string `json:"in,omitempty"`
@@ -177,6 +177,9 @@ func planRuns(c *Case) []runPlan {
 	return plans
 }
 
+// what the lambda of a node with an output key returns (the framework wraps it into map[string]any{"k": …})
+var keyedInner any = u.T1{X: 1}
+
 type compileCB struct{ info *compose.GraphInfo }
 
 func (c *compileCB) OnFinish(ctx context.Context, info *compose.GraphInfo) { c.info = info }
@@ -226,6 +229,12 @@ func build(c *Case, plans []runPlan, extra bool) (bo BuildObs) {
 	case 2:
 		gopts = append(gopts, compose.WithGenLocalState(func(ctx context.Context) *u.St2 { return &u.St2{} }))
 	}
+	keyed := false
+	for _, o := range c.Ops {
+		if o.K == "node" && o.Kind >= 5 {
+			keyed = true
+		}
+	}
 	cur := map[int]string{}  // emitted value per node for the current run
 	cur2 := map[int]string{} // second chunk per stream-producing node (multi-chunk runs only)
 	// every value a lambda receives in the current run (a run abandoned by the watchdog may still write)
@@ -269,7 +278,24 @@ func build(c *Case, plans []runPlan, extra bool) (bo BuildObs) {
 						seenVals = append(seenVals, seenVal{key, v})
 						seenMu.Unlock()
 					}
-					if o.Kind == 4 {
+					if o.Kind >= 5 {
+						// the lambda itself is any -> any; a keyed output side wraps what it returns
+						want := map[int][2]string{5: {"M", "any"}, 6: {"any", "M"}, 7: {"M", "M"}}[o.Kind]
+						if o.In != want[0] || o.Out != want[1] {
+							panic("harness: keyed node with other declared types")
+						}
+						inner := emit
+						if o.Kind != 5 {
+							inner = func() any { return keyedInner }
+						}
+						if o.Kind != 6 {
+							opts = append(opts, compose.WithInputKey("k"))
+						}
+						if o.Kind != 5 {
+							opts = append(opts, compose.WithOutputKey("k"))
+						}
+						err = g.AddLambdaNode(keyName(o.Key), newLambda("any", "any", inner, seen, 0), opts...)
+					} else if o.Kind == 4 {
 						sub := newGraphH(o.In, o.Out)
 						if err = sub.AddLambdaNode("x", newLambda(o.In, o.Out, emit, seen, 0)); err == nil {
 							if err = sub.AddEdge(compose.START, "x"); err == nil {
@@ -372,21 +398,35 @@ func build(c *Case, plans []runPlan, extra bool) (bo BuildObs) {
 				}
 			}
 		}
-		legit := func(v any) bool {
+		var legit func(v any) bool
+		legit = func(v any) bool {
 			for _, l := range legitVals {
 				if reflect.DeepEqual(v, l) {
 					return true
 				}
 			}
+			if keyed {
+				// what a node with an output key returns wrapped, and what a node with an input key is handed
+				if reflect.DeepEqual(v, keyedInner) || reflect.DeepEqual(v, 1) {
+					return true
+				}
+				if m, ok := v.(map[string]any); ok && len(m) == 1 {
+					if x, ok := m["k"]; ok {
+						return legit(x)
+					}
+				}
+			}
 			return false
 		}
 		cur_inv := inv
+		var inputVal any = valueOf(pl.input)
 		once := func(stream bool) (class, result, msg string) {
 			ch := make(chan res, 1)
 			run := cur_inv
+			inputVal := inputVal
 			go func() {
 				var r res
-				r.p = lib.Recover(func() { r.out, r.err = run(ctx, valueOf(pl.input), stream) })
+				r.p = lib.Recover(func() { r.out, r.err = run(ctx, inputVal, stream) })
 				ch <- r
 			}()
 			seenMu.Lock()
@@ -427,7 +467,12 @@ func build(c *Case, plans []runPlan, extra bool) (bo BuildObs) {
 			if m2 := secondChunks(c, pl); len(m2) > 0 {
 				ro.Emit2 = map[string]string{}
 				for k, v := range m2 {
-					cur2[k] = v
+					if k == 0 {
+						// a second chunk of the graph input: the run goes through Transform
+						inputVal = u.Multi{Vals: []any{valueOf(pl.input), valueOf(v)}}
+					} else {
+						cur2[k] = v
+					}
 					ro.Emit2[strconv.Itoa(k)] = v
 					legitVals = append(legitVals, valueOf(v))
 				}
@@ -435,6 +480,7 @@ func build(c *Case, plans []runPlan, extra bool) (bo BuildObs) {
 				for k := range cur2 {
 					delete(cur2, k)
 				}
+				inputVal = valueOf(pl.input)
 			}
 		}
 		if dagInv != nil {
@@ -450,10 +496,17 @@ func build(c *Case, plans []runPlan, extra bool) (bo BuildObs) {
 	return
 }
 
-// secondChunks: for every lambda written as Stream / Transform whose static output type admits more than one
-// dynamic value, a second chunk of another dynamic type than the planned one
+// secondChunks: for the graph input (key 0) and for every lambda written as Stream / Transform whose static
+// type admits more than one dynamic value, a second chunk of another dynamic type than the planned one
 func secondChunks(c *Case, pl runPlan) map[int]string {
 	m := map[int]string{}
+	if opts := optionsFor(c.In); len(opts) >= 2 {
+		for i, v := range opts {
+			if v == pl.input {
+				m[0] = opts[(i+1)%len(opts)]
+			}
+		}
+	}
 	seen := map[int]bool{}
 	for _, o := range c.Ops {
 		if o.K != "node" || seen[o.Key] || (o.Kind != 1 && o.Kind != 3) {
@@ -1081,7 +1134,7 @@ func (engine) Run(ci any) lib.Result {
 	kinds := map[string]bool{}
 	for _, o := range c.Ops {
 		if o.K == "node" {
-			kinds[[]string{"invoke", "stream", "collect", "transform", "subgraph"}[o.Kind%5]] = true
+			kinds[[]string{"invoke", "stream", "collect", "transform", "subgraph", "keyed", "keyed", "keyed"}[o.Kind%8]] = true
 		}
 		if o.K == "branch" && o.Kind == 1 {
 			kinds["streambranch"] = true
